@@ -142,17 +142,40 @@ theorem close_still_reported_declared (c : Conn) (code : Nat) (text : Bytes) (o 
   · exact Or.inr (Or.inr (Or.inr h))
   · exact absurd hn (hdecl bytes ho)
 
-/-- Same for a client-side protocol exception.  (No reachability hypothesis is needed: a FIFO is
-    only drained for a channel whose slot was just looked up, and channel 0 is not drained at all
-    outside `Steady`, so the `unreachable!`s of `process_channel_message` cannot be met.) -/
+/- Statement before fix D17:
+
 theorem exception_still_reported (c : Conn) (o : IoOp)
     (hl : c.legacy = false) (hd : c.dead = false) (hst : c.st = .clientException) (hs : c.sealed = true) :
+    let r := ioStep c o
+    (r.2.err = none → r.1.st = .clientException ∧ r.1.sealed = true ∧ ∃ k, r.1.out = c.out.drop k) ∧
+    (∀ e, r.2.err = some e → e ≠ .panic ∧ e ≠ .frameUnexpected)
+
+false since fix D17 for states no run can reach (a slot stored under key 0): the close preamble
+visits every slot's queue under that slot's key - counterexample:
+  c := { Conn.init 4 4 with st := .clientException, sealed := true,
+         slots := [(0, { lid := 2 }), (1, { lid := 1 })],
+         links := [(0, { chan := 0 }), (1, { chan := 1, fifo := [.connectionClose []] }),
+                   (2, { chan := 0, fifo := [.setReturn none] })] },
+  o := .event (.chan 1):  (ioStep c o).2.err = some .panic
+(the Close popped from channel 1's queue makes `takeAllQueued` visit the slot stored under key 0,
+whose queued `setReturn` meets the `n = 0` arm of `process_channel_message`). -/
+
+/-- Same for a client-side protocol exception, in every state in which no slot is stored under
+    channel id 0 (`hk`; `Conn.Inv.slot_ok` guarantees it for every reachable state, see
+    `exception_still_reported_reachable`).  Nothing else of reachability is needed: a FIFO is only
+    drained for a channel whose slot was just looked up, channel 0 is not drained at all outside
+    `Steady`, and the close request's preamble (fix D17) drains every slot's queue under that slot's
+    own - non-zero - key, so the `unreachable!`s of `process_channel_message` cannot be met. -/
+theorem exception_still_reported (c : Conn) (o : IoOp)
+    (hl : c.legacy = false) (hd : c.dead = false) (hst : c.st = .clientException) (hs : c.sealed = true)
+    (hk : ∀ p ∈ c.slots, p.1 ≠ 0) :
     let r := ioStep c o
     (r.2.err = none → r.1.st = .clientException ∧ r.1.sealed = true ∧ ∃ k, r.1.out = c.out.drop k) ∧
     (∀ e, r.2.err = some e → e ≠ .panic ∧ e ≠ .frameUnexpected) := by
   intro r
   have hns : c.st ≠ .steady := by rw [hst]; intro e; cases e
   obtain ⟨h1, h2⟩ := ioStep_sealed hl hd hns hs o
+  have h2 := h2 hk
   refine ⟨fun he => ?_, fun e he => ?_⟩
   · obtain ⟨a, b, k⟩ := h1 he
     exact ⟨a.trans hst, b, k⟩
@@ -161,6 +184,30 @@ theorem exception_still_reported (c : Conn) (o : IoOp)
         exact ⟨by simp, by simp⟩
     · subst h; exact ⟨by simp, by simp⟩
     · subst h; exact ⟨by simp, by simp⟩
+
+/-- … in particular in every state with the reachable-state invariant (`Conn.inv_run`: every state
+    reachable from `init` by `ApiLegal` operations has it), which also supplies `legacy = false`
+    and the seal. -/
+theorem exception_still_reported_reachable (c : Conn) (o : IoOp) (h : Conn.Inv c)
+    (hd : c.dead = false) (hst : c.st = .clientException) :
+    let r := ioStep c o
+    (r.2.err = none → r.1.st = .clientException ∧ r.1.sealed = true ∧ ∃ k, r.1.out = c.out.drop k) ∧
+    (∀ e, r.2.err = some e → e ≠ .panic ∧ e ≠ .frameUnexpected) :=
+  exception_still_reported c o h.legacy hd hst (h.sealed_of_clientException hst) h.keysOk
+
+/-- The state of the counterexample above (a slot stored under key 0) does meet the `unreachable!`;
+    with the slot stored under a non-zero key nothing happens. -/
+example :
+    let c : Conn := { (Conn.init 4 4) with st := .clientException, sealed := true, slots := [(0, { lid := 2 }), (1, { lid := 1 })], links := [(0, { chan := 0 }), (1, { chan := 1, fifo := [.connectionClose []] }), (2, { chan := 0, fifo := [.setReturn none] })] }
+    (ioStep c (.event (.chan 1))).2.err = some .panic := by
+  simp [ioStep, handleEvent, drainFifo, Conn.init, lookupN, getLink, popFifo, setLink, setN,
+    processChannelMessage, takeAllQueued, takeQueued, processPlainMessage, List.mergeSort, kill]
+example :
+    let c : Conn := { (Conn.init 4 4) with st := .clientException, sealed := true, slots := [(1, { lid := 1 }), (2, { lid := 2 })], links := [(0, { chan := 0 }), (1, { chan := 1, fifo := [.connectionClose []] }), (2, { chan := 2, fifo := [.setReturn none] })] }
+    (ioStep c (.event (.chan 1))).2.err = none := by
+  simp [ioStep, handleEvent, drainFifo, Conn.init, lookupN, getLink, popFifo, setLink, setN,
+    processChannelMessage, takeAllQueued, takeQueued, processPlainMessage, List.mergeSort,
+    setSlot, pushOut, sealOut]
 
 /-- The code before the repair of D5 panics on [server Connection.Close, then a stale alloc event]. -/
 example :
